@@ -7,6 +7,7 @@ import (
 	"go/token"
 	"go/types"
 	"sort"
+	"strconv"
 	"strings"
 )
 
@@ -100,7 +101,7 @@ type logicEnv struct {
 	collect  bool
 	depth    int
 	giveUp   string
-	inlining bool
+	bitops   bool
 }
 
 // leafKey renders an expression canonically: parentheses and integer
@@ -240,6 +241,15 @@ func (le *logicEnv) eval(fn *Func, e ast.Expr, subst map[types.Object]ast.Expr) 
 		return lval{n: 0, ok: true}
 	}
 	switch x := e.(type) {
+	case *ast.BasicLit:
+		if x.Kind == token.INT {
+			if n, err := strconv.ParseInt(x.Value, 0, 64); err == nil {
+				if le.collect {
+					return lval{n: n, ok: true, cs: []int64{n}}
+				}
+				return lval{n: n, ok: true}
+			}
+		}
 	case *ast.Ident:
 		if obj := info.ObjectOf(x); obj != nil {
 			if r, ok := subst[obj]; ok {
@@ -305,8 +315,35 @@ func (le *logicEnv) eval(fn *Func, e ast.Expr, subst map[types.Object]ast.Expr) 
 			return lval{n: l.n - r.n, ok: true}
 		case token.MUL:
 			return lval{n: l.n * r.n, ok: true}
-		case token.AND:
-			// bit tests: keep the whole expression as one leaf
+		case token.AND, token.OR, token.XOR, token.SHL, token.SHR, token.REM:
+			// bit tests: Implies keeps the whole expression as one leaf
+			if le.bitops {
+				if le.collect {
+					return lval{ok: true, deps: append(append([]string{}, l.deps...), r.deps...)}
+				}
+				switch x.Op {
+				case token.AND:
+					return lval{n: l.n & r.n, ok: true}
+				case token.OR:
+					return lval{n: l.n | r.n, ok: true}
+				case token.XOR:
+					return lval{n: l.n ^ r.n, ok: true}
+				case token.SHL:
+					if r.n >= 0 && r.n < 63 {
+						return lval{n: l.n << uint(r.n), ok: true}
+					}
+				case token.SHR:
+					if r.n >= 0 && r.n < 63 {
+						return lval{n: l.n >> uint(r.n), ok: true}
+					}
+				case token.REM:
+					if r.n != 0 {
+						return lval{n: l.n % r.n, ok: true}
+					}
+				}
+				le.giveUp = "operator out of range"
+				return lval{}
+			}
 		case token.QUO:
 			if r.n != 0 {
 				return lval{n: l.n / r.n, ok: true}
@@ -535,4 +572,86 @@ func (p *Program) FormulaString(f Formula) string {
 	}
 	sort.Strings(parts)
 	return strings.Join(parts, " && ")
+}
+
+// Tabulate evaluates the integer or boolean expression e of fn for every
+// combination of the given leaf values.  domains maps a leaf (matched by
+// suffix of its canonical key, e.g. ".Colors") to the values it ranges
+// over; a leaf without domain makes the tabulation undecided.  One-line
+// repository functions are inlined, so the leaves are the fields and
+// variables the value really depends on.
+func (p *Program) Tabulate(fn *Func, e ast.Expr, subst map[types.Object]ast.Expr, domains map[string][]int64,
+	cb func(env map[string]int64, n int64, b bool)) (decided bool, reason string) {
+	le := &logicEnv{prog: p, leaves: map[string]bool{}, consts: map[int64]bool{}, collect: true, bitops: true,
+		parent: map[string]string{}, groupCs: map[string]map[int64]bool{}}
+	le.eval(fn, e, subst)
+	le.collect = false
+	var keys []string
+	for k := range le.leaves {
+		keys = append(keys, k)
+	}
+	sort.Strings(keys)
+	doms := make([][]int64, len(keys))
+	total := 1
+	for i, k := range keys {
+		if le.leaves[k] {
+			doms[i] = []int64{0, 1}
+		} else {
+			found := false
+			for suffix, d := range domains {
+				if strings.HasSuffix(k, suffix) {
+					doms[i] = d
+					found = true
+				}
+			}
+			if !found {
+				return false, "no domain for leaf " + k
+			}
+		}
+		total *= len(doms[i])
+		if total > 5_000_000 || total == 0 {
+			return false, "domain product too large or empty"
+		}
+	}
+	idx := make([]int, len(keys))
+	le.val = map[string]lval{}
+	for {
+		env := map[string]int64{}
+		for i, k := range keys {
+			if le.leaves[k] {
+				le.val[k] = lval{isBool: true, b: idx[i] == 1, ok: true}
+				env[k] = int64(idx[i])
+			} else {
+				le.val[k] = lval{n: doms[i][idx[i]], ok: true}
+				env[k] = doms[i][idx[i]]
+			}
+		}
+		v := le.eval(fn, e, subst)
+		if !v.ok {
+			return false, le.giveUp
+		}
+		cb(env, v.n, v.b)
+		i := 0
+		for ; i < len(keys); i++ {
+			idx[i]++
+			if idx[i] < len(doms[i]) {
+				break
+			}
+			idx[i] = 0
+		}
+		if i == len(keys) {
+			break
+		}
+	}
+	return true, ""
+}
+
+// EnvLookup finds the value of the leaf whose key ends in suffix.
+func EnvLookup(env map[string]int64, suffix string) (int64, bool) {
+	for k, v := range env {
+		if strings.HasSuffix(k, suffix) {
+			return v, true
+		}
+	}
+	return 0, false
 }
